@@ -223,7 +223,10 @@ func classifyRefFailure(c *Case, impl, ref Canon) []string {
 	if strings.Contains(c.Query, "timestamp(") {
 		tags = append(tags, "timestamp-function")
 	}
-	if ref.Kind == "error" && ref.Err == "same-labelset" && impl.Kind != "error" {
+	// the engine does not detect output series with equal label sets: neither after
+	// the metric name is dropped nor when group_left/group_right labels make the
+	// results of two "many"-side samples coincide ("grouping labels must ensure unique matches")
+	if ref.Kind == "error" && (ref.Err == "same-labelset" || (ref.Err == "multiple-matches" && strings.Contains(ref.ErrMsg, "grouping labels must ensure unique matches"))) && impl.Kind != "error" {
 		tags = append(tags, "same-labelset-not-detected")
 	}
 	if impl.Kind != "error" && hasDuplicateSeries(impl) {
